@@ -78,6 +78,11 @@ type Step struct {
 	Drift bool   `json:"drift,omitempty"` // a disturbance: the undisturbed reference run skips this step
 	// sys stream: the At-th write on a managed object of this pass is answered with an API error
 	WFault *WFault `json:"wfault,omitempty"` // op=reconcile|phase
+	// sys stream: every REST-mapper lookup of the listed kinds is answered with a transient
+	// (non-NoMatch) error during this pass — API discovery is degraded while the controller runs;
+	// MapErrClass picks the concrete error (verifphase.MapperError), the model does not read it
+	MapErr      []string `json:"mapErr,omitempty"`      // op=reconcile|phase
+	MapErrClass string   `json:"mapErrClass,omitempty"` // op=reconcile|phase
 }
 
 // WFault makes the At-th (0-based, counted like Step.Env's At) non-dry-run write on a managed
@@ -640,6 +645,8 @@ func (y *sys) doStep(st Step) string {
 				return verifstore.Fault{}
 			}
 		}
+		// --- REST-mapper faults (sys stream): lookups of the listed kinds fail during this pass
+		y.env.Store.MapperFault = verifphase.MapperFaultFor(st.MapErr, st.MapErrClass)
 		var res ctrl.Result
 		var err error
 		req := ctrl.Request{NamespacedName: types.NamespacedName{Namespace: y.ns(), Name: st.Set}}
@@ -651,6 +658,7 @@ func (y *sys) doStep(st Step) string {
 		y.env.Store.BeforeWrite = nil
 		y.env.Store.CallFault = nil
 		y.env.Store.InjectFault = nil
+		y.env.Store.MapperFault = nil
 		for _, r := range refused { // the trace names the error class the API answered with
 			r.Err = st.WFault.Class
 		}
